@@ -3,10 +3,11 @@
     the extracted inductive types.  No Extract Constant.  *)
 Require Extraction.
 Require Import ExtrOcamlBasic.
-From CV Require Import Model.Qualtrim Model.Align Model.Adapters.
+From CV Require Import Model.Qualtrim Model.Align Model.Adapters Model.Kmer.
 Extraction Blacklist List String Int.
 Set Extraction KeepSingleton.
 Extraction "model.ml"
   quality_trim_index nextseq_trim_index poly_a_trim_index trim_n n_count
   quality_trimmer nextseq_trimmer
-  locate thr_of match_to prefix_locate suffix_locate mkCfg mkAd.
+  locate thr_of match_to prefix_locate suffix_locate mkCfg mkAd
+  positions_and_kmers kmers_present match_to_prefiltered prefilter_passes finder_of.
